@@ -648,6 +648,14 @@ func corpusTA(cfg *config) []string {
 		"dec mut " + hexStr("Time\n\n1.000\n"),
 		"dec mut " + hexStr("# Lap 0: 00:00:01.000\n# Lap 0: 00:00:01.000\n# Lap 0: 00:00:01.000\n"),
 	}
+
+	// garbage in any single column of an otherwise valid row is an error, whichever column it is (the
+	// columns stored as text excepted: the model knows which); also an empty field
+	for _, c := range taCols {
+		for _, junk := range []string{"abc", "", "1.2.3"} {
+			ops = append(ops, "dec mut "+hexStr("Time,"+c.header+"\n0.100,"+taValue(newRng(7), c.kind)+"\n0.200,"+junk+"\n"))
+		}
+	}
 	// values that only half parse: every one of them is an unparsable value
 	for _, v := range []string{"1653983971.abc", "1653983971.", "1653983971", ".5", "1653983971.010x", "1653983971,010", "abc.010", "1653983971.-10", "+1653983971.010"} {
 		ops = append(ops, "dec mut "+hexStr("# Vehicle: Demo\n\"Time\",\"UTC Time\",\"Lap\"\n0.000,1653983971.000,0\n0.010,"+v+",0\n"))
